@@ -222,6 +222,11 @@ fn subpacket_sets(rng: &mut Rng, key: &SignedSecretKey, which: u64) -> Vec<Subpa
         Box::new(|_| Subpacket::regular(SubpacketData::PolicyURI("https://example.org/p".into())).unwrap()),
         Box::new(|_| Subpacket::regular(SubpacketData::PreferredKeyServer("hkps://keys.example.org".into())).unwrap()),
         Box::new(|_| Subpacket::regular(SubpacketData::SignersUserID(b"signer <s@example.org>"[..].into())).unwrap()),
+        // text values outside ASCII: lengths are in octets, not characters
+        Box::new(|_| Subpacket::regular(SubpacketData::PolicyURI("https://b\u{fc}cher.example/signierrichtlinie".into())).unwrap()),
+        Box::new(|_| Subpacket::regular(SubpacketData::PreferredKeyServer("hkps://schl\u{fc}ssel.example/\u{65e5}\u{672c}".into())).unwrap()),
+        Box::new(|_| Subpacket::regular(SubpacketData::SignersUserID("J\u{fc}rgen \u{1F600} <j@example.org>".as_bytes().into())).unwrap()),
+        Box::new(|_| Subpacket::regular(SubpacketData::Notation(Notation { readable: true, name: "n\u{e4}me@example.org".into(), value: "w\u{e9}rt \u{2603}".as_bytes().into() })).unwrap()),
         Box::new(|r| Subpacket::regular(SubpacketData::Notation(Notation { readable: true, name: "a@example.org".into(), value: r.bytes(10).into() })).unwrap()),
         Box::new(|r| Subpacket::regular(SubpacketData::Notation(Notation { readable: false, name: "b@example.org".into(), value: r.bytes(200).into() })).unwrap()),
         Box::new(|r| Subpacket::regular(SubpacketData::Notation(Notation { readable: false, name: "c@example.org".into(), value: r.bytes(17000).into() })).unwrap()),
